@@ -148,6 +148,26 @@ func (m *LeafCustom) Unmarshal(b []byte) error {
 	return nil
 }
 
+// GogoCustom implements the custom interface the way gogoproto generates it: MarshalTo trusts the
+// caller to have provided Size() bytes and re-slices the buffer to that size.
+type GogoCustom struct{ Data []byte }
+
+func (m *GogoCustom) Size() int { return len(m.Data) }
+func (m *GogoCustom) MarshalTo(dAtA []byte) (int, error) {
+	size := m.Size()
+	return m.MarshalToSizedBuffer(dAtA[:size])
+}
+func (m *GogoCustom) MarshalToSizedBuffer(dAtA []byte) (int, error) {
+	i := len(dAtA)
+	i -= len(m.Data)
+	copy(dAtA[i:], m.Data)
+	return len(dAtA) - i, nil
+}
+func (m *GogoCustom) Unmarshal(b []byte) error {
+	m.Data = append([]byte{}, b...)
+	return nil
+}
+
 var (
 	tBytes = reflect.TypeOf([]byte(nil))
 )
